@@ -1178,7 +1178,18 @@ class Model:
                                     start_mx.is_symbolic()
                                     and str(start_mx) != str(sign * alias_start_mx)
                                 )
-                                or start != alias_start_mx
+                                or (
+                                    # Only numeric values can be compared with `!=`; the
+                                    # truth value of a symbolic MX comparison is undefined.
+                                    start_mx.is_constant()
+                                    and start != alias_start_mx
+                                )
+                                or (
+                                    not start_mx.is_constant()
+                                    and not ca.is_equal(
+                                        start_mx, sign * alias_start_mx, CASADI_COMPARISON_DEPTH
+                                    )
+                                )
                             ):
                                 logger.warning(
                                     "Current start attribute of canonical variable '{}' ({})"
